@@ -210,6 +210,8 @@ ALPHABET = {
     "tvd-default": ["SBTVD|a|0.5|1.0", "SBTVD|a|0.2|0.4", "TVD|a|0.3", "TVD|c|0.6"],
     "jacobi-object": ["JAC|1.0|0.5|1.0", "JAC|1.0|2.0|0.5", "JAC|2.0|0.5|1.0", "JACD|1.0|0.5|2", "JACD|1.0|0.5|3"],
     "jacobi-array-coefficients": ["JACA|1.0", "JACA|3.0"],
+    # coefficients and mesh sizes in SI units of very small magnitude (they differ by less than 1e-8 in absolute terms)
+    "jacobi-tiny-parameters": ["JAC|1e-9|2e-9|1e-9", "JAC|2e-9|1e-9|1e-9", "JAC|1e-9|2e-9|2e-9", "H1|a|1e-9|2e-9|default", "H1|a|2e-9|1e-9|default"],
     "jacobi-default-dim": ["H1dim|a|1.0|1.0|2", "H1dim|v|1.0|1.0|3", "H1|a|1.0|1.0|default"],
     "default-array-weights": ["H1A|bool|3", "H1A|float64|4", "H1A|float32|5", "H1A|int|6", "H1|a|1.0|1.0|default"],
     "tvd-initial-guess": ["SBTVDX|0.5", "SBTVDX|0.2"],
